@@ -259,7 +259,7 @@ def run(ctx):
         for ch in chunks:
             futs[ex.submit(run_batch, ctx, h, [items[i]["op"] for i in ch], 120)] = ch
         for i in single:
-            futs[ex.submit(run_batch, ctx, h, [items[i]["op"]], 25 if quick else 60)] = [i]
+            futs[ex.submit(run_batch, ctx, h, [items[i]["op"]], 40 if quick else 240)] = [i]
         for fu in cf.as_completed(futs):
             for i, o in zip(futs[fu], fu.result()):
                 outs[i] = o
